@@ -60,6 +60,21 @@ def truths(K, m, thorough, seed=0):
     return out
 
 
+def gap_targeted_truths(W, eps):
+    """two-design truths placed in CONE coordinates: W (mu_1 - mu_0) = eps * alpha * (a, b), so that the
+    per-facet gaps are a*eps and b*eps whatever the cone looks like (square W only)"""
+    W = np.asarray(W, float)
+    if W.shape[0] != W.shape[1]:
+        return []
+    al = oracles.cone_alpha_vec(W)
+    out = []
+    for ab in ((1.2, 1.2), (1.2, 2.5), (2.5, 1.2), (0.8, 2.5), (2.5, 0.8), (1.2, 0.0)):
+        t = np.array(ab[: W.shape[1]] + (1.2,) * (W.shape[1] - 2))
+        d = np.linalg.solve(W, eps * al * t)
+        out.append(np.array([np.zeros(W.shape[1]), d]))
+    return out
+
+
 # ---------------------------------------------------------------------------------------------
 # menus (valid answers only)
 
